@@ -68,8 +68,13 @@ func genOp(g G, u universe, m *mTracker, uniq *int, choose func(int) int) tOp {
 	case 6:
 		return tOp{"NickInfo", []string{nick(), fresh("id"), fresh("host"), fresh("name")}}
 	case 7:
-		modes := []string{"+i", "+o", "-o", "+Bwxz", "-iw", "+q", "+i-i+x", "", "+"}
-		return tOp{"NickModes", []string{nick(), modes[choose(len(modes))]}}
+		// any string over the signs, the six user-mode letters and a letter the
+		// tracker does not know (signs may switch anywhere, also right at the start)
+		var b strings.Builder
+		for k := choose(7); k > 0; k-- {
+			b.WriteByte("++--BiowxzBiowxzq"[choose(17)])
+		}
+		return tOp{"NickModes", []string{nick(), b.String()}}
 	case 8, 9:
 		return tOp{"NewChannel", []string{ch()}}
 	case 10:
